@@ -35,6 +35,29 @@ impl Prop for C07 {
     }
     fn gen(&self, seed: u64) -> Scenario {
         let mut rng = Rng::new(seed);
+        if rng.pct(2) {
+            // bounded sweep: one small input, cut (clean EOF) and failed (hard I/O error) at *every* byte offset,
+            // each as an initial parse and as an extension of the intact tree
+            let (mut bytes, _, _) = hostile(&mut rng);
+            bytes.truncate(160);
+            let e = rng.u128();
+            let mut replicas = Vec::new();
+            let chunk = *rng.pick(&[0usize, 1, 3]);
+            for at in 0..=bytes.len() {
+                for io in [false, true] {
+                    let mut p = Plan::whole();
+                    if chunk > 0 {
+                        p.cuts = (1..bytes.len()).filter(|i| i % chunk == 0).collect();
+                    }
+                    p.fault = if io { Fault::Io { at, kind: "Other".into() } } else { Fault::Truncate { at } };
+                    let good = Step { input: Input::Raw(bytes.clone()), plan: Plan::slice(), cfg: 0 };
+                    let bad = Step { input: Input::Raw(bytes.clone()), plan: p, cfg: 0 };
+                    replicas.push(Replica { role: format!("{}@{at}", if io { "io" } else { "eof" }), entropy: e, steps: vec![bad.clone(), good, bad], warmup: vec![] });
+                }
+            }
+            let opts = vec![RenderOpt::preset(false, false, "")];
+            return Scenario::Session(Session { docs: vec![], alts: vec![], replicas, opts });
+        }
         let n = *rng.pick(&[1usize, 1, 2, 2, 3]);
         let mut steps = Vec::new();
         for _ in 0..n {
@@ -133,11 +156,15 @@ impl Prop for C07 {
                 );
             }
         }
+        if s.replicas.len() > 8 {
+            bump(ctr, "sweep.every_offset_inputs");
+            add(ctr, "sweep.every_offset_replicas", s.replicas.len() as u64);
+        }
         let nontrivial = outs.iter().any(|r| r.steps.iter().any(|st| !st.ok || any_fault));
         Ok(Exec { violation, trace, fingerprint: fp.0, nontrivial, sim_steps, discarded: None, shape: 0, env_sig: env.0 })
     }
     fn rule(&self) -> &'static str {
-        "a case = 1-3 hostile byte strings (byte-level mutations of generated documents: token insertion, deletion, bit flips, truncation, splices, duplicated regions, invalid UTF-8 inside names/keys/values/text; raw random bytes; markup-alphabet noise; token soup; chains up to depth 200) delivered as parse then extend through a PRNG-drawn reader plan (slice / chunked / adversarial cuts / EINTR bursts / BufReader capacity / hard I/O error or truncation at a chosen offset) under one of the 128 reader configurations, every resulting tree rendered with arbitrary option strings; distinct = distinct (bytes, plan, config) sequence; non-trivial = some delivery returned Err or some injected fault fired"
+        "a case = 1-3 hostile byte strings (byte-level mutations of generated documents: token insertion, deletion, bit flips, truncation, splices, duplicated regions, invalid UTF-8 inside names/keys/values/text; raw random bytes; markup-alphabet noise; token soup; chains up to depth 200) delivered as parse then extend through a PRNG-drawn reader plan (slice / chunked / adversarial cuts / EINTR bursts / BufReader capacity / hard I/O error or truncation at a chosen offset) under one of the 128 reader configurations, every resulting tree rendered with arbitrary option strings; 2% of cases are bounded sweeps (one input of <= 160 bytes cut by a clean EOF and by a hard I/O error at every byte offset, as initial parse and as extension); distinct = distinct (bytes, plan, config) sequence; non-trivial = some delivery returned Err or some injected fault fired"
     }
     fn real_components(&self) -> Vec<&'static str> {
         vec!["xml_schema_generator", "quick-xml buffered reader", "std BufReader", "process boundary (abort / stack overflow detection by worker death)"]
